@@ -32,3 +32,41 @@ fn c14_7c_reverb_network_sizes() {
     kani::cover!(true);
     core::mem::forget(rv);
 }
+
+use crate::info::kani_proofs::empty_info;
+use super::comb::kani_proofs::set_current;
+
+// @ob id=C14.7d,C13.7c strength=bounded tier=quick timeout=2400 bound="reverb initialised at 441 Hz (buffers of 2..16 cells), stereo width 1, fully wet; the current cell of each of the 16 comb filters pre-loaded with a dyadic grid value, everything else cleared; one grid input frame" fn=effect/reverb.rs::<Reverb as Effect>::process
+// @req one frame
+// @ens Freeverb topology: the left output is the sum of the 8 left comb outputs passed through the 4 left all-passes in series (each inverts a cleared cell's input: four inversions cancel), the right output likewise from the right filters; at stereo width 1 there is no cross-feed; fully wet adds none of the input
+#[kani::proof]
+#[kani::unwind(20)]
+fn c14_7d_reverb_topology() {
+    let (w, r) = command_writers_and_readers();
+    core::mem::forget(w);
+    let mut b = ReverbBuilder::new();
+    b.mix = Value::Fixed(Mix(1.0));
+    b.stereo_width = Value::Fixed(1.0);
+    let mut rv = Reverb::new(b, r);
+    rv.init(441, 2);
+    let mut sum_l = 0.0f32;
+    let mut sum_r = 0.0f32;
+    if let ReverbState::Initialized { comb_filters, .. } = &mut rv.state {
+        let mut i = 0;
+        while i < 8 {
+            let (l, r) = (grid_sample(), grid_sample());
+            set_current(&mut comb_filters[i].0, l);
+            set_current(&mut comb_filters[i].1, r);
+            sum_l += l;
+            sum_r += r;
+            i += 1;
+        }
+    }
+    let x = grid_frame();
+    let mut buf = [x];
+    let info = empty_info();
+    rv.process(&mut buf, 1.0 / 441.0, &info);
+    assert!(buf[0].left == sum_l && buf[0].right == sum_r, "C14.7d: eight parallel combs summed, then four series all-passes, per channel, no cross-feed at width 1");
+    kani::cover!(sum_l != sum_r);
+    core::mem::forget(info); core::mem::forget(rv);
+}
